@@ -141,6 +141,31 @@ def run(ctx):
             case = dict(kind="run", code=code, primal=pm, dual=dl, obj=ob)
             res.violation(bad[1] + (" [root cause: %s]" % key if key else ""), case,
                           common.save_replay(ctx.pid, case, "run-%d-%d%d%d.json" % (code, pm, dl, ob)))
+    # ---- 2b. the other way a backend reports a code: StdBackend::Abort(code, text) from inside Solve()
+    def one_abort(code):
+        return code, vd.run(nlb, ["status %d scripted abort text" % code, "solve_throw 3"], want_dump=False)
+    with ThreadPoolExecutor(common.NCPU) as ex:
+        aresults = list(ex.map(one_abort, codes))
+    for code, r in aresults:
+        # an mp::Error without a solve-result code carries EXIT_FAILURE (1) or -1: codes up to 99 on this path cannot be told from
+        # "no code" and are written as failure by design - not judged
+        judged = code >= 100
+        res.case(("abort", code), judged and code in boundaries, labels=["abort:" + (cls(code) if judged else "not-judged(<100)")],
+                 sample=dict(kind="abort", code=code, sol_code=r.sol.code if r.sol else None) if code in (150, 200, 520) else None)
+        bad = None
+        if r.sanitizer or r.signal or r.sol is None:
+            bad = ("abort-crash-or-no-sol", "Abort(%d): run failed: rc=%s sol_error=%s %s" % (code, r.rc, r.sol_error, common.crash_head(r.err)))
+        elif judged and r.sol.code != code:
+            bad = ("abort-code-changed", "backend aborted with code %d (%s), .sol says %s" % (code, cls(code), r.sol.code))
+        elif judged and "scripted abort text" not in "\n".join(r.sol.message):
+            bad = ("abort-text-lost", "Abort(%d, text): the text is not in the solve message %r" % (code, r.sol.message[:2]))
+        if bad:
+            sig = (bad[0], cls(code))
+            if sig in reported:
+                continue
+            reported.add(sig)
+            case = dict(kind="abort", code=code)
+            res.violation(bad[1], case, common.save_replay(ctx.pid, case, "abort-%d.json" % code))
     # ---- 3. the table shown by -!
     p = subprocess.run([vd.BIN, "-!"], env=common.env_with(), stdout=subprocess.PIPE, stderr=subprocess.PIPE, text=True)
     shown = {}
@@ -159,7 +184,7 @@ def run(ctx):
     res.nontrivial = {common.h(x) for x in res.nontrivial}
     return common.finish(ctx, res, "exploration",
                          "all 1200 codes for the six range predicates (complete on both tiers); full driver runs for code x presence of "
-                         "primal/dual/objective (all 9600 combinations on both tiers); "
+                         "primal/dual/objective (all 9600 combinations on both tiers); StdBackend::Abort(code, text) for all 1200 codes (judged from 100 up); "
                          "non-trivial = code within 1 of a documented range boundary",
                          ["range table transcribed from doc/source/features-guide.rst and the sol::Status comments",
                           "100-199 ('solved?') is don't-care for the objective clause, as the property lists only solved / "
@@ -179,6 +204,14 @@ def replay(ctx, path):
         if bool(got) != c["expected"]:
             print("VIOLATION property=%s replay=%s" % (ctx.pid, path))
             print("  %s(%d) = %s, expected %s" % (c["predicate"], c["code"], bool(got), c["expected"]))
+            return 1
+        print("replay passes: %s" % path)
+        return 0
+    if c["kind"] == "abort":
+        r = vd.run(small_model(), ["status %d scripted abort text" % c["code"], "solve_throw 3"], want_dump=False)
+        if r.sol is None or r.sol.code != c["code"] or "scripted abort text" not in "\n".join(r.sol.message):
+            print("VIOLATION property=%s replay=%s" % (ctx.pid, path))
+            print("  Abort(%d): .sol code %s, message %r" % (c["code"], r.sol.code if r.sol else None, r.sol.message[:2] if r.sol else None))
             return 1
         print("replay passes: %s" % path)
         return 0
